@@ -129,6 +129,19 @@ fn probe(image: Disk, opts: &OptSet, u: &Arc<Universe>, m: &Mutation) -> Value {
                 let _ = wait_quiescent(&db, Duration::from_secs(10));
                 let (gets2, _) = get_all(&db, &u2, None);
                 ev.insert("gets2".into(), json!(gets2));
+                // a third round after a manual compaction of everything: the damaged file is now
+                // (also) read as a compaction INPUT; whatever the compaction installed or refused
+                // to install, what is served must still be right
+                db.compact_range(None..None);
+                let _ = wait_quiescent(&db, Duration::from_secs(10));
+                let (gets3, _) = get_all(&db, &u2, None);
+                let f3 = match db.new_iterator(raindb::ReadOptions::default()) {
+                    Ok(mut it) => iter_forward(&mut it, &u2, 10_000),
+                    Err(e) => Err(e.to_string()),
+                };
+                ev.insert("gets3".into(), json!(gets3));
+                ev.insert("fwd3ok".into(), json!(f3.is_ok()));
+                ev.insert("fwd3".into(), scan_json(&f3));
                 let bgp = peek_panics().iter().any(|p| p.thread == "bg");
                 if bgp {
                     std::mem::forget(db);
@@ -149,6 +162,7 @@ fn probe(image: Disk, opts: &OptSet, u: &Arc<Universe>, m: &Mutation) -> Value {
     };
     let nk = u.n();
     let defaults = json!({"open_ok": false, "err": "", "gets": vec![-1; nk], "gets2": vec![-1; nk],
+        "gets3": vec![-1; nk], "fwd3ok": false, "fwd3": [],
         "fwdok": false, "fwd": [], "bwdok": false, "bwd": [], "hang": false, "panic": false});
     if let (Value::Object(e), Value::Object(d)) = (&mut ev, defaults) {
         for (k, v) in d {
